@@ -3028,6 +3028,10 @@ class FilterTableWrite(APCI):
         if not 0 <= self.filter_table_address <= 0xFFFF:
             raise ConversionError("Filter table address out of range.")
 
+        if not self.data:
+            # the decoder requires at least one octet of data
+            raise ConversionError("Data missing.")
+
         size = len(self.data)
         payload = struct.pack(
             f"!BH{size}s", self.number, self.filter_table_address, self.data
@@ -3218,6 +3222,10 @@ class RouterMemoryWrite(APCI):
             raise ConversionError("Number out of range.")
         if not 0 <= self.memory_address <= 0xFFFF:
             raise ConversionError("Memory address out of range.")
+
+        if not self.data:
+            # the decoder requires at least one octet of data
+            raise ConversionError("Data missing.")
 
         size = len(self.data)
         payload = struct.pack(
